@@ -137,6 +137,14 @@ func stressAdapterLeaks(seed int64, scale int) int {
 				w.Write([]byte("unavailable, try again"))
 				return
 			}
+		case "first503":
+			c, _ := hrCalls.LoadOrStore("first503-"+r.URL.Query().Get("call"), new(atomic.Int32))
+			if c.(*atomic.Int32).Add(1) == 1 {
+				w.Header().Set("Retry-After", "0")
+				w.WriteHeader(503)
+				w.Write([]byte(strings.Repeat("unavailable, try again ", 200)))
+				return
+			}
 		case "stall":
 			// the first attempt of a call is told to retry by a response whose body never ends (headers and a first piece are
 			// flushed, then the handler hangs until the client goes away): nothing may wait for that body
@@ -271,6 +279,29 @@ func stressAdapterLeaks(seed int64, scale int) int {
 		}
 		v.count("http/retried-body-stalls")
 	}
+	// a retried response followed by an attempt that fails before anything is sent (the request body cannot be rewound once it
+	// has been consumed): the retried response is released all the same
+	for i := 0; i < runs/12+1; i++ {
+		ex := failsafe.NewExecutor[*http.Response](failsafehttp.RetryPolicyBuilder().WithMaxRetries(2).Build())
+		req, _ := http.NewRequestWithContext(callerCtx, "POST", fmt.Sprintf("%s/?mode=first503&call=%d", srv.URL, i), nil)
+		req.Body = &seekOnceBody{r: strings.NewReader("request-body")}
+		req.ContentLength = int64(len("request-body"))
+		var resp *http.Response
+		var err error
+		if i%2 == 0 {
+			resp, err = (&http.Client{Transport: failsafehttp.NewRoundTripperWithExecutor(ct, ex)}).Do(req)
+		} else {
+			resp, err = failsafehttp.NewRequestWithExecutor(req, &http.Client{Transport: ct}, ex).Do()
+		}
+		if err == nil {
+			v.add("the request body cannot be rewound for the second attempt, yet the call reported no error")
+		}
+		if resp != nil && resp.Body != nil {
+			io.Copy(io.Discard, resp.Body)
+			resp.Body.Close()
+		}
+		v.count("http/retried-then-body-cannot-rewind")
+	}
 	// response bodies whose Close reports an error (a wrapping transport may do that): the attempt's context is released all
 	// the same, also when it had to be merged from a context of a non-standard type
 	for i := 0; i < runs/6; i++ {
@@ -314,6 +345,22 @@ func stressAdapterLeaks(seed int64, scale int) int {
 			})
 		ccancel()
 		v.count("grpc/caller-gives-up")
+	}
+	// the request's own context is long-lived and of a non-standard type (a server framework's), the execution has a context of
+	// its own (a Timeout that does not fire): whatever the interceptor derives from the two is released when the call returns
+	for i := 0; i < runs/2; i++ {
+		ex := failsafe.NewExecutor[any](timeout.With[any](time.Minute))
+		if i%2 == 0 {
+			failsafegrpc.NewUnaryServerInterceptorWithExecutor[any](ex)(longLived, 1, &grpc.UnaryServerInfo{}, func(ctx context.Context, req any) (any, error) {
+				return 1, nil
+			})
+		} else {
+			failsafegrpc.NewUnaryClientInterceptorWithExecutor[any](ex)(longLived, "/s/m", 1, new(int), nil,
+				func(ctx context.Context, method string, req, reply any, cc *grpc.ClientConn, opts ...grpc.CallOption) error {
+					return nil
+				})
+		}
+		v.count("grpc/request-context-non-standard")
 	}
 	// gRPC interceptors
 	for i := 0; i < runs; i++ {
@@ -405,6 +452,21 @@ func stressAdapterLeaks(seed int64, scale int) int {
 	callerCancel()
 	execCancel()
 	return v.report("adapterleaks", 2*runs)
+}
+
+// seekOnceBody: a seekable request body that cannot be rewound once it has been read
+type seekOnceBody struct {
+	r        *strings.Reader
+	consumed atomic.Bool
+}
+
+func (b *seekOnceBody) Read(p []byte) (int, error) { b.consumed.Store(true); return b.r.Read(p) }
+func (b *seekOnceBody) Close() error               { return nil }
+func (b *seekOnceBody) Seek(off int64, whence int) (int64, error) {
+	if b.consumed.Load() {
+		return 0, errors.New("seek: the body has been consumed")
+	}
+	return b.r.Seek(off, whence)
 }
 
 // closeErrTransport: every response body's Close does its work and then reports an error
